@@ -380,7 +380,8 @@ class C17(Check):
         "disk_fault_fired", "same_process_second_save",
         "colliding_outputs_in_one_command", "target_is_symlink",
         "target_appeared_during_command", "output_path_from_config",
-        "target_is_empty_file",
+        "target_is_empty_file", "history_as_ordinary_user",
+        "target_is_write_protected",
     )
 
     def setup_worker(self):
@@ -639,7 +640,15 @@ class C17(Check):
                 for _ in range(rng.randint(0, 4))]
             again["rerun"] = True
             ops.insert(rng.randint(i + 1, len(ops)), again)
-        return {"kind": "history", "seed": rng.getrandbits(31), "ops": ops}
+        case = {"kind": "history", "seed": rng.getrandbits(31), "ops": ops}
+        if rng.random() < 0.15:
+            # the user is not root: existing targets may be write-protected
+            case["unprivileged"] = True
+            for op in ops:
+                for k, how in list(op.get("pre", {}).items()):
+                    if how in ("random", "empty") and rng.random() < 0.6:
+                        op["pre"][k] = "readonly"
+        return case
 
     def fixed_cases(self, tier):
         """a seeded permutation of the configuration matrix"""
@@ -803,6 +812,43 @@ class C17(Check):
             raise HarnessError("in history child: " + payload)
         return payload
 
+    @staticmethod
+    def _become_ordinary_user(sb):
+        """drop CAP_DAC_OVERRIDE / CAP_DAC_READ_SEARCH / CAP_FOWNER for the
+        rest of this (forked) process: uid 0 is then bound by permission bits
+        like any file owner.  (Changing the uid instead would lock the child
+        out of the interpreter's own library directory.)"""
+        import ctypes
+
+        class Hdr(ctypes.Structure):
+            _fields_ = [("version", ctypes.c_uint32), ("pid", ctypes.c_int)]
+
+        class Data(ctypes.Structure):
+            _fields_ = [("effective", ctypes.c_uint32),
+                        ("permitted", ctypes.c_uint32),
+                        ("inheritable", ctypes.c_uint32)]
+
+        libc = ctypes.CDLL(None, use_errno=True)
+        hdr = Hdr(0x20080522, 0)  # _LINUX_CAPABILITY_VERSION_3
+        data = (Data * 2)()
+        if libc.capget(ctypes.byref(hdr), data) != 0:
+            raise HarnessError("capget failed")
+        mask = ~((1 << 1) | (1 << 2) | (1 << 3)) & 0xffffffff
+        data[0].effective &= mask
+        data[0].permitted &= mask
+        data[0].inheritable &= mask
+        if libc.capset(ctypes.byref(hdr), data) != 0:
+            raise HarnessError("capset failed")
+        probe = os.path.join(sb.root, ".perm_probe")
+        with open(probe, "w") as f:
+            f.write("x")
+        os.chmod(probe, 0o444)
+        writable = os.access(probe, os.W_OK)
+        os.chmod(probe, 0o644)
+        os.remove(probe)
+        if writable:
+            raise HarnessError("permission bits still do not apply")
+
     def _execute_inner(self, case) -> RunResult:
         evo = self.evo
         sb = self.sb
@@ -810,6 +856,30 @@ class C17(Check):
         data = self._data(case["seed"] % 5)
         self._cur_data = data
         sb.reset()
+        # names of temporary files are part of the event log: seeded, like
+        # every other choice of a run
+        import hashlib
+        import tempfile
+
+        class _Names:
+            def __init__(self, seed):
+                self.seed, self.k = seed, 0
+
+            def __iter__(self):
+                return self
+
+            def __next__(self):
+                self.k += 1
+                return hashlib.sha256(
+                    f"{self.seed}:{self.k}".encode()).hexdigest()[:8]
+
+        tempfile._name_sequence = _Names(case["seed"])
+        if case.get("unprivileged") and os.geteuid() == 0:
+            # the rest of this history runs as an ordinary user: file
+            # permissions apply (the harness itself runs as root, for which
+            # every existing file is writable)
+            self._become_ordinary_user(sb)
+            res.stats["probe.history_as_ordinary_user"] += 1
         # evo's own settings are loaded already; from here on "~" is the
         # sandbox, so a literal "~/name" output path names a sandbox file
         os.environ["HOME"] = sb.root
@@ -838,6 +908,9 @@ class C17(Check):
                         # job has just opened
                         blob = b""
                         res.stats["probe.target_is_empty_file"] += 1
+                    if os.path.lexists(rel) and not os.path.islink(rel) \
+                            and not os.path.isdir(rel):
+                        os.chmod(rel, 0o644)  # re-planting over our own file
                     if how == "symlink":
                         # the target is a link to an existing file elsewhere
                         os.makedirs("store", exist_ok=True)
@@ -854,6 +927,10 @@ class C17(Check):
                         os.unlink(rel)
                     with open(rel, "wb") as f:
                         f.write(blob)
+                    if how == "readonly":
+                        # a write-protected file (mode 0444) of the same user
+                        os.chmod(rel, 0o444)
+                        res.stats["probe.target_is_write_protected"] += 1
                 if "opts" in op and op_config(op):
                     with open("in/opcfg.json", "w") as f:
                         json.dump(op_config(op), f)
